@@ -39,6 +39,8 @@ func runC04(c *Check) {
 	c.ruleConfirmedStateComplete("R8")
 	c.ruleNoWholeRecordOverwrite("R10")
 	c.ruleProofConversionTotal("R11")
+	c.ruleDecodeLoopsKeepEveryElement("R12", 10)
+	c.ruleAlreadyConfirmedNeedsBlockInChain("R13")
 	// R9 the proof's codec: a stored / transmitted confirmation is decoded with the proof it was written with
 	if cp := c.P.CodecPkg("client"); cp != nil {
 		for _, pr := range codecPairsIn(cp, "Serialize", "Deserialize") {
